@@ -8,16 +8,9 @@ Import ListNotations.
 Open Scope string_scope.
 Open Scope Z_scope.
 
-(* the four code generation options of a class *)
-Record flags := { g_on : bool; g_ba : bool; g_dl : bool; g_cx : bool }.
-
 Definition enc_flags (f: flags) : kv :=
   KNs [(c_TO_DICT_ADD_OMIT_NONE_FLAG, KBool f.(g_on)); (c_TO_DICT_ADD_BY_ALIAS_FLAG, KBool f.(g_ba));
        (c_ADD_DIALECT_SUPPORT, KBool f.(g_dl)); (c_ADD_SERIALIZATION_CONTEXT, KBool f.(g_cx))].
-
-Definition both (a b: flags) : flags :=
-  {| g_on := a.(g_on) && b.(g_on); g_ba := a.(g_ba) && b.(g_ba);
-     g_dl := a.(g_dl) && b.(g_dl); g_cx := a.(g_cx) && b.(g_cx) |}.
 
 Definition flag_args (f: flags) : list string :=
   (if f.(g_on) then ["omit_none=omit_none"] else []) ++ (if f.(g_ba) then ["by_alias=by_alias"] else [])
